@@ -165,9 +165,26 @@ func (p *WorkerPool) SubmitWait(execute func() interface{}) (interface{}, bool) 
 
 // Stop shuts down the worker pool gracefully
 func (p *WorkerPool) Stop() {
+	// Serialize with Resize, which stops and restarts the pool
+	p.resizeMu.Lock()
+	defer p.resizeMu.Unlock()
+
+	// Tasks that were accepted but never picked up are handed back to their
+	// submitters as "not executed" (closed result channel), so that SubmitWait
+	// returns ok=false instead of waiting forever.
+	for _, task := range p.stopLocked() {
+		if task.ResultChan != nil {
+			close(task.ResultChan)
+		}
+	}
+}
+
+// stopLocked stops the workers and returns the tasks still queued.
+// The caller holds resizeMu.
+func (p *WorkerPool) stopLocked() []Task {
 	// Use atomic to ensure we only stop once
 	if !atomic.CompareAndSwapInt32(&p.running, 1, 0) {
-		return // Not running
+		return nil // Not running
 	}
 
 	// Signal all workers to stop
@@ -175,20 +192,29 @@ func (p *WorkerPool) Stop() {
 
 	// Close the task queue under closeMu so that no Submit is mid-send.
 	p.closeMu.Lock()
+	queue := p.taskQueue
 	func() {
 		defer func() {
 			if r := recover(); r != nil {
 				// Channel was already closed, ignore the panic
 			}
 		}()
-		close(p.taskQueue)
+		close(queue)
 	}()
 	p.closeMu.Unlock()
 
 	// Wait for all workers to finish
 	p.wg.Wait()
 
+	// Collect what the workers left behind (they may exit on cancellation
+	// before draining the queue)
+	var pending []Task
+	for task := range queue {
+		pending = append(pending, task)
+	}
+
 	p.logger.logger.Printf("Worker pool stopped")
+	return pending
 }
 
 // Stats returns statistics about the worker pool
@@ -204,7 +230,7 @@ func (p *WorkerPool) Stats() (maxWorkers int, activeWorkers int, queuedTasks int
 // Resize changes the number of workers in the pool
 // This operation requires stopping and restarting the worker pool
 func (p *WorkerPool) Resize(maxWorkers int) {
-	// R29: Serialize Resize calls to prevent concurrent access
+	// R29: Serialize Resize calls (and Stop) to prevent concurrent access
 	p.resizeMu.Lock()
 	defer p.resizeMu.Unlock()
 
@@ -221,37 +247,20 @@ func (p *WorkerPool) Resize(maxWorkers int) {
 	// Check if the pool is running
 	wasRunning := atomic.LoadInt32(&p.running) == 1
 
-	// Save reference to old queue before stopping
-	oldQueue := p.taskQueue
-
-	// Stop the pool if it's running
-	// This will close the old queue and wait for all workers to finish
-	if wasRunning {
-		p.Stop()
-	}
-
-	// Drain remaining tasks from old queue and notify callers.
-	// Stop() already closed oldQueue. If wasRunning was false, the queue
-	// may still be closed from a prior Stop() call, so use recover().
+	// Stop the pool if it's running. This closes the queue, waits for the
+	// workers and hands back the tasks that were still queued.
 	var pendingTasks []Task
-	if oldQueue != nil {
-		if !wasRunning {
-			func() {
-				defer func() { recover() }()
-				close(oldQueue)
-			}()
-		}
-		for task := range oldQueue {
-			pendingTasks = append(pendingTasks, task)
-		}
+	if wasRunning {
+		pendingTasks = p.stopLocked()
 	}
 
 	// Update the max workers
 	p.maxWorkers = maxWorkers
-	// Create a new task queue with appropriate size
+	// Create a new task queue and context (under closeMu: Submit reads the queue)
+	p.closeMu.Lock()
 	p.taskQueue = make(chan Task, maxWorkers*2)
-	// Create a new context
 	p.ctx, p.cancel = context.WithCancel(context.Background())
+	p.closeMu.Unlock()
 	// Reset active workers count
 	atomic.StoreInt32(&p.activeWorkers, 0)
 
@@ -264,17 +273,10 @@ func (p *WorkerPool) Resize(maxWorkers int) {
 			select {
 			case p.taskQueue <- task:
 			default:
-				// Queue full, notify caller of failure
+				// Queue full: tell the submitter the task was not executed
 				if task.ResultChan != nil {
-					task.ResultChan <- nil
+					close(task.ResultChan)
 				}
-			}
-		}
-	} else {
-		// Pool wasn't running, notify callers of dropped tasks
-		for _, task := range pendingTasks {
-			if task.ResultChan != nil {
-				task.ResultChan <- nil
 			}
 		}
 	}
